@@ -321,6 +321,17 @@ func (im *Image) Decode(mi int) *Result {
 	if uint64(len(im.Data)) < m.Pgid*uint64(im.PageSize) {
 		w.problem("file-short", 0, "file length %d < high-water mark %d × page size %d", len(im.Data), m.Pgid, im.PageSize)
 	}
+	// pages 0 and 1 are pages of type meta (the page header is not covered by the record's checksum, so a
+	// valid record says nothing about it)
+	for id := uint64(0); id < 2; id++ {
+		if off := id * uint64(im.PageSize); off+PageHeaderSize <= uint64(len(im.Data)) {
+			// (only values that are no page type at all are counted: the integrity check being judged does not
+			// look at which of the valid types a meta page carries, and the property lists "invalid type" only)
+			if fl := le.Uint16(im.Data[off+8:]); fl != FlagMeta && fl != FlagBranch && fl != FlagLeaf && fl != FlagFreelist {
+				w.problem("bad-type", id, "meta page has flags %#x", fl)
+			}
+		}
+	}
 	// freelist
 	if m.Freelist != NoFreelist {
 		res.HasFreelist = true
